@@ -345,6 +345,7 @@ func checkC16(c *Ctx) {
 	ruleD3(c, dtp, 6)
 	ruleN3(c, dtp)
 	ruleD8(c, dtp, 4)
+	ruleQ1(c, 10)
 }
 
 func checkC17(c *Ctx) {
@@ -356,6 +357,8 @@ func checkC17(c *Ctx) {
 	ruleD2(c, 4)
 	ruleD3(c, dtp, 6)
 	ruleD8(c, dtp, 4)
+	ruleQ1(c, 10)
+	ruleQ2(c)
 }
 
 func checkC18(c *Ctx) {
